@@ -52,6 +52,8 @@ Definition strictly_increasing (l : list R) : Prop := forall a b, (a < b)%nat ->
 
 Lemma asc_lt_closed l s : ascending l -> prefix_closed (fun c => Rltb c s) l.
 Proof. intros H a b Hab Hb Hp. apply Rltb_true in Hp. apply Rltb_true. pose proof (H a b Hab Hb). lra. Qed.
+Lemma asc_le_closed l s : ascending l -> prefix_closed (fun c => Rleb c s) l.
+Proof. intros H a b Hab Hb Hp. apply Rleb_true in Hp. apply Rleb_true. pose proof (H a b Hab Hb). lra. Qed.
 Lemma desc_gt_closed l s : descending l -> prefix_closed (fun c => Rltb s c) l.
 Proof. intros H a b Hab Hb Hp. apply Rltb_true in Hp. apply Rltb_true. pose proof (H a b Hab Hb). lra. Qed.
 Lemma strict_asc l : strictly_increasing l -> ascending l.
@@ -78,7 +80,7 @@ Qed.
 (* the slices *)
 Lemma slices_right_nth cps st prev j : (j < length st)%nat ->
   nth j (slices_right cps st prev) (0%nat, 0%nat) =
-  (match j with 0%nat => prev | S j' => count (fun c => Rltb c (nth j' st 0)) cps end, count (fun c => Rltb c (nth j st 0)) cps).
+  (match j with 0%nat => prev | S j' => count (fun c => Rleb c (nth j' st 0)) cps end, count (fun c => Rleb c (nth j st 0)) cps).
 Proof.
   revert prev j; induction st as [|s r IH]; intros prev j Hj; [cbn in Hj; lia|].
   cbn [slices_right]. destruct j as [|j']; [reflexivity|]. cbn [nth]. rewrite IH by (cbn in Hj; lia).
@@ -105,21 +107,21 @@ Proof. destruct l; cbn; lia. Qed.
 (* membership of control point i in the slice of pair j *)
 Lemma in_slice_right cps spans i j : ascending cps -> (i < length cps)%nat -> (S j < length spans)%nat ->
   in_slice (nth j (slices false cps spans) (0%nat, 0%nat)) i = true <->
-  (match j with 0%nat => True | _ => nth j spans 0 <= nth i cps 0 end) /\ nth i cps 0 < nth (S j) spans 0.
+  (match j with 0%nat => True | _ => nth j spans 0 < nth i cps 0 end) /\ nth i cps 0 <= nth (S j) spans 0.
 Proof.
-  intros Ha Hi Hj. unfold slices. change (fun c => nltb c ?s) with (fun c => Rltb c s).
+  intros Ha Hi Hj. unfold slices. change (fun c => nleb c ?s) with (fun c => Rleb c s).
   rewrite slices_right_nth by (rewrite length_tl; lia). unfold in_slice. cbn [fst snd].
   rewrite andb_true_iff, Nat.leb_le, Nat.ltb_lt, !nth_tl.
-  pose proof (count_iff (fun c => Rltb c (nth (S j) spans 0)) cps (asc_lt_closed cps _ Ha) i Hi) as C1.
-  rewrite C1, Rltb_true. destruct j as [|j'].
+  pose proof (count_iff (fun c => Rleb c (nth (S j) spans 0)) cps (asc_le_closed cps _ Ha) i Hi) as C1.
+  rewrite C1, Rleb_true. destruct j as [|j'].
   - split; intros [_ H]; split; [exact I|assumption|lia|assumption].
   - rewrite nth_tl.
-    pose proof (count_iff (fun c => Rltb c (nth (S j') spans 0)) cps (asc_lt_closed cps _ Ha) i Hi) as C0.
+    pose proof (count_iff (fun c => Rleb c (nth (S j') spans 0)) cps (asc_le_closed cps _ Ha) i Hi) as C0.
     split; intros [H1 H2]; split; try assumption.
-    + destruct (Rle_dec (nth (S j') spans 0) (nth i cps 0)); [assumption|]. exfalso.
-      assert (Hc : (i < count (fun c => Rltb c (nth (S j') spans 0%R)) cps)%nat) by (apply C0; apply Rltb_true; lra). lia.
-    + destruct (le_lt_dec (count (fun c => Rltb c (nth (S j') spans 0%R)) cps) i); [assumption|]. exfalso.
-      apply C0 in l. apply Rltb_true in l. lra.
+    + destruct (Rlt_dec (nth (S j') spans 0) (nth i cps 0)); [assumption|]. exfalso.
+      assert (Hc : (i < count (fun c => Rleb c (nth (S j') spans 0%R)) cps)%nat) by (apply C0; apply Rleb_true; lra). lia.
+    + destruct (le_lt_dec (count (fun c => Rleb c (nth (S j') spans 0%R)) cps) i); [assumption|]. exfalso.
+      apply C0 in l. apply Rleb_true in l. lra.
 Qed.
 Lemma in_slice_left cps spans i j : descending cps -> (i < length cps)%nat -> (S j < length spans)%nat ->
   in_slice (nth j (slices true cps spans) (0%nat, 0%nat)) i = true <->
@@ -180,27 +182,13 @@ Proof.
     + rewrite C2; [rcompute; ring|assumption|].
       destruct (in_slice (nth (S j) sls (0%nat, 0%nat)) i) eqn:E; [|reflexivity]. exfalso.
       apply in_slice_left in E; try assumption; [|lia]. destruct E as [_ E]. lra.
-  - (* right: ascending *)
-    destruct (Rlt_dec (nth i cps 0) (nth (S j) spans 0)) as [Hlt|Hge].
-    + assert (Hin : in_slice (nth j sls (0%nat, 0%nat)) i = true).
-      { apply in_slice_right; try assumption. split; [destruct j; [exact I|lra]|assumption]. }
-      destruct (coef_pair sls fv i j) as [C1 [C2 C3]]; [lia|assumption|]. rewrite C1.
-      destruct (le_lt_dec (length sls) (S j)) as [Hge|Hl].
-      * rewrite C3 by assumption. rcompute. ring.
-      * rewrite C2; [rcompute; ring|assumption|].
-        destruct (in_slice (nth (S j) sls (0%nat, 0%nat)) i) eqn:E; [|reflexivity]. exfalso.
-        apply in_slice_right in E; try assumption; [|lia]. destruct E as [E _]. lra.
-    + (* the control point sits exactly on station j+1: weight 1 on column j+1, which pair j+1 has filled *)
-      assert (Ex : nth i cps 0 = nth (S j) spans 0) by lra.
-      assert (HSj : (S (S j) < length spans)%nat).
-      { destruct (le_lt_dec (length spans) (S (S j))) as [Hbig|]; [|assumption]. exfalso.
-        replace (length spans - 1)%nat with (S j) in Hlast by lia. lra. }
-      assert (Hin : in_slice (nth (S j) sls (0%nat, 0%nat)) i = true).
-      { apply in_slice_right; try assumption. split; [lra|]. rewrite Ex. apply Hs; lia. }
-      assert (C : coef sls fv i (S j) = fv i (S j)).
-      { unfold coef. assert (Hl : (S j < length sls)%nat) by lia. apply Nat.ltb_lt in Hl. rewrite Hl, Hin. reflexivity. }
-      rewrite C, Ex.
-      assert (Hd : (nth (S j) spans 0 - nth j spans 0) / (nth (S j) spans 0 - nth j spans 0) = 1) by (field; lra).
-      change (@nsub R RNum) with Rminus. change (@ndiv R RNum) with Rdiv. change (@nmul R RNum) with Rmult.
-      change (@nadd R RNum) with Rplus. change (@n1 R RNum) with 1. rewrite Hd. ring.
+  - (* right: control points in ascending order; the same pair as on the left *)
+    assert (Hin : in_slice (nth j sls (0%nat, 0%nat)) i = true).
+    { apply in_slice_right; try assumption. split; [destruct j; [exact I|assumption]|assumption]. }
+    destruct (coef_pair sls fv i j) as [C1 [C2 C3]]; [lia|assumption|]. rewrite C1.
+    destruct (le_lt_dec (length sls) (S j)) as [Hge|Hl].
+    + rewrite C3 by assumption. rcompute. ring.
+    + rewrite C2; [rcompute; ring|assumption|].
+      destruct (in_slice (nth (S j) sls (0%nat, 0%nat)) i) eqn:E; [|reflexivity]. exfalso.
+      apply in_slice_right in E; try assumption; [|lia]. destruct E as [E _]. lra.
 Qed.
